@@ -151,8 +151,16 @@ def check_servo6(rep, prog, kal):
         rep.anchor_missing("SERVO-6", "no call of ensure_freq_init found")
 
 
+def _state_writes(ctx):
+    rep = ctx.report
+    rep.rule("SERVO-10", "the port state changes only through set_forced_port_state, the one place that replaces and "
+                         "demobilizes the servo when the slave state is left - shared with C08 ROLE-8", floor=1)
+    fc.check_state_writes(rep, ctx.prog("default"), "SERVO-10")
+
+
 def run(ctx):
     _run(ctx)
+    _state_writes(ctx)
     import witness
     witness.report(ctx, "C13")
 
